@@ -171,7 +171,9 @@ func tryRecursiveValidate(val reflect.Value, opts *options, validators []validat
 	if err != nil {
 		return err
 	}
-	return tryValidate(val)
+	// Validate is looked up on the value and on a pointer to it, so follow
+	// all pointers first (**T implements nothing)
+	return tryValidate(chaseValuePointers(val))
 }
 
 func validateStruct(val reflect.Value, opts *options) error {
